@@ -357,7 +357,9 @@ def reduce_any(a, axis=None):
 
 
 def cumsum_flat(a):
-    raise Undecided("cumsum (see C17 counting contracts)")
+    from .counting import cumsum_flat as impl
+
+    return impl(a)
 
 
 # ----------------------------------------------------------------------------- constructors
